@@ -39,7 +39,7 @@ bool CSVParser::deserialize_chunk(bool next, container& out, const std::string& 
   bool first =  true;
   bool error = false;
   bool encap = next;
-  if (encap)
+  if (encap && !out.empty())
   {
     value.assign(out.back());
     out.pop_back();
